@@ -350,3 +350,7 @@ TECHNIQUE = 'Lean 4 proof of the command protocol + engine discipline; serial/pa
 from harness import adaptpar as _ap                     # noqa: E402
 from harness.mixins import add_family as _add_family    # noqa: E402
 _add_family(globals(), _ap, 'adaptpar', _ap.oracle, share=0.1)
+# parallel processes / steps generated at run time, then another structural change (move of their compartment,
+# views rebuilt while a port-less parallel process is in flight)
+from harness import parstruct as _ps                    # noqa: E402
+_add_family(globals(), _ps, 'parstruct', _ps.oracle, share=0.1)
